@@ -35,7 +35,7 @@ CLAIMS = {
             "Metamorphic generated-input search: result(original, p) with the edited file's ranges shifted equals result(translated, shift(p)) for every query kind and cursor; the parser-level precondition (top-level AST is translated) is checked, not assumed.",
             "4/C18", TRUST + " Insertion in front of the first item is included (results carrying the root body's own extent are mapped onto the translated extent; ambiguous one-line / whole-body / blank files excluded); insertion points inside multi-line tokens are excluded; a cursor the library places outside the parser's root body (leading blanks of line 1) is upstream."),
     "C20": ("property-based testing (rapid) against a reference model built from generator annotations (call parentheses and own commas)",
-            "Generated function tables and call trees with recorded structure; soundness (whatever is returned is the innermost enclosing known call with fixed++variadic parameters and the comma-count active index, none beyond the parameters) on all inputs incl. half-typed prefixes, completeness on parse-clean text.",
+            "Generated function tables and call trees with recorded structure; soundness (whatever is returned is the innermost enclosing known call with fixed++variadic parameters and the comma-count active index, none beyond the parameters) on all inputs incl. half-typed prefixes, completeness on parse-clean text and, in unfinished text, for calls the parser itself has with both parentheses (cursor directly in their argument list).",
             "4/C20", TRUST + " Don't-care positions: cursor exactly at the opening parenthesis; calls with an empty argument slot."),
     "C14": ("property-based testing (rapid) against a reference outline built from the parser's AST; workspace query over generated path sets with unreadable paths",
             "Generated worlds (with and without schema, unreadable paths, edits) and query strings, and in 25% of cases a structured configuration rendered as HCL JSON under a schema; the expected outline is computed by the harness from HCL's AST and compared node by node with SymbolsInFile, and filtered/concatenated for Decoder.Symbols.",
@@ -60,7 +60,7 @@ CLAIMS = {
             "4/C10", TRUST + " Statement-silent classes (for iterator variables, arguments of unknown / parameterless functions, surplus arguments, key expressions, dynamic blocks) are don't-care regions."),
     "C09": ("property-based testing (rapid) against a reference model of addressable declarations (addresses from declared steps, body types, extents from the parser AST) plus structural rules on the collected tree",
             "Generated schemas with every addressing form and generated configurations; completeness (each addressable declaration of the effective schema yields its target with the modelled address / scope / type / range / definition range), soundness (each collected target is explained by an addressable declaration and carries its address; nothing for unknown items) and structure (nested address = parent + one step, list indexes in source order, own extents).",
-            "4/C09", TRUST + " One known finding (D21, first element of a block group) is listed in known_findings.json; types of expression-typed attributes are only modelled for plain literals."),
+            "4/C09", TRUST + " One known finding (D21, first element of a block group) is listed in known_findings.json; types of expression-typed attributes are only modelled for plain literals (under a one-of: when the members admitting the literal agree and all other members are of kinds that declare no targets); every targetable of the effective schema is an expected target."),
     "C11": ("property-based testing (rapid) over Terraform-like worlds with resolving references; independent matching predicate (necessary / sufficient conditions) and the go-to-definition / find-references inverse relation",
             "For every collected origin, go-to-definition is judged sound and complete against a matching predicate written from the statement (address equality / dynamic prefix / block-local containment / scope and type constraints, target path), and find-references at each reported definition must list the origin; find-references results must themselves be collected origins pointing into the queried path that denote a declaration at the position.",
             "4/C11", TRUST + " The sets of targets and origins are the collectors' own output (their exactness is C09/C10). Worlds have 1-3 paths; in three-path worlds the third is a twin of the first (same file names and ranges) so that origins of different paths collide on everything but the path."),
@@ -69,7 +69,7 @@ CLAIMS = {
             "4/C19", TRUST + " Only schema-known attributes are written (JSON cannot tell unknown attributes from blocks), and where a reference and a string literal are both admitted the literals are strings that are no traversal (JSON cannot tell them from a legacy reference); ranges and block-local targets are ignored as the statement says. One known finding (escaped string index under a Reference constraint) is listed in known_findings.json."),
     "C08": ("property-based testing (rapid): validity predicate per value-completion candidate against the collected declarations and the attribute's constraint; round trip through go-to-definition",
             "Terraform-like worlds with resolving references and half-typed values; every candidate inside an attribute value is judged: reference candidates are addresses of collected declarations, start with the typed text, are visible (block-local names, self.*), are not the edited attribute and fit the expected scope/type where known; function candidates are known functions with convertible return type; accepted reference candidates resolve back through go-to-definition.",
-            "4/C08", TRUST + " Soundness of candidates only ('offers only what fits'); the expected scope/type is judged where the value is a plain traversal or empty, and inside the parentheses of a call of a known function (the parameter of the comma-counted argument slot decides)."),
+            "4/C08", TRUST + " Soundness of candidates only ('offers only what fits'); the expected scope/type is judged where the value is a plain traversal or empty, and inside the parentheses of a call of a known function (the parameter of the comma-counted argument slot decides), and inside object constructors (the attribute of the item under the cursor decides; an item whose key is no literal name admits no reference / function / boolean candidate)."),
 }
 
 def main():
